@@ -148,12 +148,35 @@ pub fn build_builder(
                 .collect()
         };
         match op {
-            Op::Rejected { dup_of } => {
+            Op::Rejected { dup_of, unknown_dep } => {
                 // a registration that must be rejected; the builder is used further afterwards
                 let name = match &ops[*dup_of] {
                     Op::Sys { name, .. } | Op::Batch { name, .. } => name.clone(),
                     _ => String::new(),
                 };
+                if *unknown_dep {
+                    let sys = DynSys {
+                        acc: HAcc {
+                            ctx: ctx.clone(),
+                            idx: usize::MAX,
+                            reads: vec![],
+                            writes: vec![],
+                            provide: false,
+                        },
+                        rt: 3,
+                    };
+                    // no generated name contains a NUL character
+                    let r = catch_unwind(AssertUnwindSafe(|| {
+                        b.add(sys, "", &[name.as_str(), "never\0registered"])
+                    }));
+                    if r.is_ok() {
+                        return Err(BuildPanic {
+                            path: vec![i],
+                            msg: "a dependency on a name that was never registered was accepted without a panic".into(),
+                        });
+                    }
+                    continue;
+                }
                 let sys = DynSys {
                     acc: HAcc {
                         ctx: ctx.clone(),
